@@ -426,6 +426,10 @@ def py_len(I, ctx, v):
 
 def py_type(I, ctx, v):
     b = I.builtins
+    if v is None:
+        if "NoneType" not in b:
+            b["NoneType"] = ClassVal("NoneType", None, [b["object"]], {}, external="NoneType")
+        return b["NoneType"]
     if isinstance(v, (Obj, B.SymRec)):
         return v.cls
     if isinstance(v, TupleVal):
@@ -478,6 +482,8 @@ def py_isinstance(I, ctx, v, c):
         return c.ns["__instancecheck_model__"](ctx, v)
     if v is None:
         return c.external == "object" or c.external == "NoneType"
+    if isinstance(v, Opaque) and v.attrs.get("isinstance"):
+        return v.attrs["isinstance"](ctx, c)
     if isinstance(v, B.OptVal):
         v = B.resolve_opt(I, ctx, v)
         return py_isinstance(I, ctx, v, c)
